@@ -14,7 +14,10 @@ echo "|---|---|---|---|---|"
 for id in $ids; do
   d=seeded/$id
   [ -f $d/patch.diff ] || continue
-  wt=/tmp/seedwt_$id
+  # the demonstrations of rounds 2 and 3 assert that coco is imported from the worktree they were written in
+  prop0=${id%-*}; letter=${id#*-}
+  case $letter in C|D|E) wt=/tmp/seed2/$prop0 ;; F|G) wt=/tmp/seed3/$prop0 ;; *) wt=/tmp/seedwt_$id ;; esac
+  mkdir -p $(dirname $wt)
   git -C /repo worktree add --detach $wt HEAD >/dev/null 2>&1 || { echo "$id: cannot create worktree"; continue; }
   prop=$(/venv/bin/python -c "import json;print(json.load(open('$d/meta.json'))['property'])")
   checks=$(/venv/bin/python -c "import json;print(' '.join(json.load(open('$d/meta.json'))['caught_by']))")
@@ -26,12 +29,13 @@ for id in $ids; do
   res=""
   for c in $checks; do
     line=$(tools/runseed.sh $wt $c | head -1)
-    rc=$(echo "$line" | sed 's/.*rc=\([0-9]*\).*/\1/')
+    rc=$(echo "$line" | sed -n 's/^[A-Z0-9]* rc=\([0-9]*\).*/\1/p')
     key=$(echo "$line" | sed -n 's/.*key=\([^ ]*\).*/\1/p')
     res="$res $c:rc=$rc${key:+ ($key)}"
   done
   echo "$id: tests=[$t] demo=$d0/$d1 $res"
   echo "| $id | $prop | $t | exit $d0 / exit $d1 |$res |" >> $tmp
+  cp $tmp $out
   git -C /repo worktree remove --force $wt
 done
 mv $tmp $out
